@@ -151,30 +151,10 @@ func extractC19(c *ctxT) {
 	strs("ibcRefundCalls", refundCalls, "IbcRefund: keeper calls in order")
 	boolean("ibcRefundGuardedByDelete", guarded, "IbcRefund starts with `if !k.DeleteIBCTransferRelation(..) { return nil }`")
 
-	var errCalls, defCalls, toCalls []string
-	if fd := c.findFunc("x/ibc/middleware/keeper", "Keeper", "OnAcknowledgementPacket"); fd != nil {
-		ast.Inspect(fd.Body, func(m ast.Node) bool {
-			cc, ok := m.(*ast.CaseClause)
-			if !ok {
-				return true
-			}
-			var names []string
-			for _, st := range cc.Body {
-				names = append(names, c.selCalls(st, "k")...)
-			}
-			if len(cc.List) == 0 {
-				defCalls = names
-			} else if strings.Contains(c.src(cc.List[0]), "Acknowledgement_Error") {
-				errCalls = names
-			}
-			return true
-		})
-	}
+	var toCalls []string
 	if fd := c.findFunc("x/ibc/middleware/keeper", "Keeper", "OnTimeoutPacket"); fd != nil {
 		toCalls = c.selCalls(fd.Body, "k")
 	}
-	strs("ackErrorBranchCalls", errCalls, "OnAcknowledgementPacket, case *Acknowledgement_Error")
-	strs("ackDefaultBranchCalls", defCalls, "OnAcknowledgementPacket, default case")
 	strs("timeoutCalls", toCalls, "OnTimeoutPacket")
 
 	var recvCalls []string
@@ -250,6 +230,7 @@ func extractC19(c *ctxT) {
 	strs("intermediateSenderFmtArgs", fmtArgs, "its arguments")
 	strs("intermediateSenderHashArgs", hashArgs, "arguments of address.Hash")
 	c.c19Flow(&sb)
+	c.c19Ack(&sb)
 	sb.WriteString("end FxVerif.Gen.C19\n")
 	c.write("C19.lean", sb.String())
 }
